@@ -68,6 +68,13 @@ WORKSPACES = {
         "fu.f90": "program fu\n  use fam\n  use fbm\n  implicit none\n  falpha = fa1 + fa2\n  fbeta = fb1\nend program fu\n",
     },
 }
+# two files declare entities with the same attribute list; one of them is later named by a separate EXTERNAL statement:
+# whatever a process remembers about an attribute list must not carry that over to the other file's entity
+WORKSPACES["WH_same_attributes"] = {
+    "ha.f90": "module ham\n  implicit none\ncontains\n  subroutine hsa(hf, hg)\n    real, optional :: hf\n    external hf\n    integer, optional :: hg\n    if (present(hg)) hg = 1\n  end subroutine hsa\nend module ham\n",
+    "hb.f90": "module hbm\n  implicit none\ncontains\n  subroutine hsb(hfac, hn)\n    real, optional :: hfac\n    integer, optional :: hn\n    external hn\n    if (present(hfac)) hfac = 1.0\n  end subroutine hsb\nend module hbm\n",
+    "hu.f90": "program hu\n  use ham\n  use hbm\n  implicit none\n  call hsb(hfac=2.0)\n  call hsa(hg=3)\nend program hu\n",
+}
 DUP_HEADER = {
     "files": {
         "main.F90": "module fm\n#include \"fh.h\"\n#if F_WHICH == 1\n  integer :: f_one\n#endif\n#if F_WHICH == 2\n  integer :: f_two\n#endif\nend module fm\n",
